@@ -128,8 +128,19 @@ def _coverage(chk, ctx) -> None:
             if isinstance(v, tuple) and v[:2] == ('call', 'max_or_none'):
                 sib = v
     shape = lambda t: (t[0], t[1], t[2][0][:2] if t and t[2] and isinstance(t[2][0], tuple) else None)  # noqa
-    ok = sib is not None and sib[2][0][0] == 'call' and sib[2][0][1] == 'map' and best[2][0][1] == 'map' \
-        and sib[2][0][2][0] [:2] == best[2][0][2][0][:2] and sib[2][0][2][1][0] == 'attr' and sib[2][0][2][1][2] == 'player_indices'
+    # both are max_or_none(<hand of i> for i in <pot>.player_indices): map(partial(getitem, hands), ...) and the generator
+    # expression are the same term
+    def over_players(t):
+        if t is None or t[:2] != ('call', 'max_or_none') or not t[2] or t[2][0][0] != 'comp':
+            return None
+        c = t[2][0]
+        gens = c[3]
+        if len(gens) != 1 or gens[0][2]:
+            return None
+        var, it, _ = gens[0]
+        body = c[2][0]
+        return (body[0] == 'sub' and body[2] == var, it[0] == 'attr' and it[2] == 'player_indices')
+    ok = over_players(sib) == (True, True) and over_players(best) == (True, True)
     chk.ob('C12.sibling', 'State.can_win_now~push_chips', ok, fi.loc,
            "can_win_now and push_chips select the best hand the same way: maximum over the pot's eligible players of the shown hands",
            got=T.show(sib)[:200] if sib else None, want=T.show(best)[:200])
